@@ -40,7 +40,7 @@ ASSUMPTIONS = [
     "that the supplied extension is stripped)",
     "'located explanation' is read as: stdout carries 'Conformance error at bit offset N' with 0 <= N <= 8*len+8, N equal to "
     "the location the validator library reports for the same bytes (offending_offset() or the read position), the library's "
-    "explanation text up to whitespace re-flow, and at least one 'vc2-bitstream-viewer <file> ...' command line naming the input file",
+    "explanation text up to white space (re-flow), and at least one 'vc2-bitstream-viewer <file> ...' command line naming the input file",
     "files of pictures decoded before a conformance error may be absent (the property says 'may exist'); any that exist must be faithful",
     "exit status = what sys.exit(main(argv)) would give (None => 0)",
 ]
@@ -152,7 +152,10 @@ def cases(spec, ctx):
     for d, op in ((b"", "edge:empty"), (b"BBCD", "edge:prefix-only"), (b"BBCD\x10" + bytes(8), "edge:eos-only")):
         yield {"data": d, "op": op, "seed": "-", "v": _variant(rng)}
     for i in range(spec["n"]):
-        case = cliwork.draw(corpus, rng, ctx, MIX)
+        if rng.random() < 0.03:
+            case = cliwork.zero_run(corpus, rng)
+        else:
+            case = cliwork.draw(corpus, rng, ctx, MIX)
         if case is None:
             continue
         case["v"] = _variant(rng)
@@ -189,7 +192,8 @@ def library_offset(verdict):
 
 
 def _squash(s):
-    return re.sub(r"\s+", " ", s).strip()
+    """Text with all white space removed (re-flowing may also break over-long words)."""
+    return re.sub(r"\s+", "", s)
 
 
 def classify_internal(exc_class, exc_text, site):
@@ -197,6 +201,9 @@ def classify_internal(exc_class, exc_text, site):
     text = exc_text or ""
     if exc_class == "ConformanceError":
         return "conformance-error-reported-as-internal-error"
+    if exc_class == "ValueError" and "integer string conversion" in text:
+        # CPython >= 3.11 refuses str(int) beyond 4300 digits: one root cause wherever the number is formatted
+        return "int-max-str-digits"
     if exc_class == "UnboundLocalError" and "true_parse_offset" in text and site in (None, "parse_info"):
         return "parse_info:unbound-true_parse_offset"
     if exc_class == "KeyError" and site in (None, "fragment_header") and any(
@@ -231,7 +238,7 @@ def check_pair(ctx, root, raw_rel, json_rel, cb, i):
     if vp2 != want_vp or any(type(vp2[k]) is not type(want_vp[k]) for k in vp2):
         diff = sorted(k for k in set(vp2) | set(want_vp) if vp2.get(k) != want_vp.get(k))
         ctx.violation("output-metadata-differs:video_parameters", "picture %d: written video parameters differ in %s" % (i, diff),
-                      detail={"written": vp2, "callback": want_vp})
+                      detail={"written": repr(vp2)[:1500], "callback": repr(want_vp)[:1500]})
         return False
     if pcm2 != int(pcm):
         ctx.violation("output-metadata-differs:picture_coding_mode", "picture %d: written %r, callback %r" % (i, pcm2, int(pcm)))
@@ -251,7 +258,7 @@ def check_pair(ctx, root, raw_rel, json_rel, cb, i):
         if got[c] != [list(map(int, row)) for row in pic[c]]:
             ndiff = sum(1 for ra, rb in zip(got[c], pic[c]) for a, b in zip(ra, rb) if a != b)
             ctx.violation("output-raw-differs", "picture %d component %s: %d samples differ from the callback picture" % (i, c, ndiff),
-                          detail={"written_row0": got[c][:1], "callback_row0": [list(map(int, r)) for r in pic[c][:1]]})
+                          detail={"written_row0": repr(got[c][:1])[:1500], "callback_row0": repr([list(map(int, r)) for r in pic[c][:1]])[:1500]})
             return False
     if nonzero:
         ctx.violation("output-raw-padding", "picture %d: %d samples have non-zero bits above the component depth" % (i, nonzero))
@@ -274,7 +281,10 @@ def run_case(case, ctx):
 
     root = tempfile.mkdtemp(prefix="case-", dir=_TMP)
     try:
-        _run(case, ctx, vv, data, v, root, subdir, template, relative)
+        # the harness side (reference run, file reading, messages) must not depend on the interpreter's
+        # int<->str digit limit; call_main() gives the command itself a fresh process's default
+        with cliwork.int_str_limit(0):
+            _run(case, ctx, vv, data, v, root, subdir, template, relative)
     finally:
         shutil.rmtree(root, ignore_errors=True)
 
